@@ -18,9 +18,40 @@ package values
 //@   ensures err != nil ==> req == nil
 //@   ensures err == nil ==> req != nil && fresh(req) && len(req.Extension) == 0 && req.Prefix != nil && fresh(req.Prefix) && req.Prefix.Target == target
 
+//@ import admin "github.com/onosproject/onos-api/go/onos/config/admin"
+
+// width the model gives for the leaf (first type option), 32 when the model says nothing
+//@ spec modelWidth(m *admin.ReadWritePath) int = ite(m != nil && len(m.TypeOpts) > 0, m.TypeOpts[0], configapi.WidthThirtyTwo)
+//@ spec gnmiKind(v *gnmi.TypedValue, t string) bool = v != nil && isType(v.Value, t)
+
 //@ func GnmiTypedValueToNativeType(gnmiTv, modelPath) (v, err)
-//@   trusted
+//@   props C17
 //@   modifies checkFailures
-//@   ensures checkFailures == old(checkFailures) + ite(err == nil, 0, 1)
+// ghost bookkeeping of refusals (C13): real code cannot touch ghost state, so this clause is assumed at call sites
+//@   assumed ensures checkFailures == old(checkFailures) + ite(err == nil, 0, 1)
+//@   ensures err == nil ==> v != nil
+//@   ensures {C17} string-kept: gnmiTv != nil && isType(gnmiTv.Value, "*gnmi.TypedValue_StringVal") && asType(gnmiTv.Value, "*gnmi.TypedValue_StringVal") != nil ==> err == nil && v.Type == configapi.ValueType_STRING && tvString(v) == asType(gnmiTv.Value, "*gnmi.TypedValue_StringVal").StringVal
+//@   ensures {C17} ascii-kept: gnmiTv != nil && isType(gnmiTv.Value, "*gnmi.TypedValue_AsciiVal") && asType(gnmiTv.Value, "*gnmi.TypedValue_AsciiVal") != nil ==> err == nil && v.Type == configapi.ValueType_STRING && tvString(v) == asType(gnmiTv.Value, "*gnmi.TypedValue_AsciiVal").AsciiVal
+//@   ensures {C17} int-kept: gnmiTv != nil && isType(gnmiTv.Value, "*gnmi.TypedValue_IntVal") && asType(gnmiTv.Value, "*gnmi.TypedValue_IntVal") != nil && modelWidth(modelPath) <= 64 ==> err == nil && v.Type == configapi.ValueType_INT && tvInt(v) == asType(gnmiTv.Value, "*gnmi.TypedValue_IntVal").IntVal && tvWidth(v) == modelWidth(modelPath)
+//@   ensures {C17} uint-kept: gnmiTv != nil && isType(gnmiTv.Value, "*gnmi.TypedValue_UintVal") && asType(gnmiTv.Value, "*gnmi.TypedValue_UintVal") != nil && modelWidth(modelPath) <= 64 ==> err == nil && v.Type == configapi.ValueType_UINT && tvUint(v) == asType(gnmiTv.Value, "*gnmi.TypedValue_UintVal").UintVal && tvWidth(v) == modelWidth(modelPath)
+//@   ensures {C17} bool-kept: gnmiTv != nil && isType(gnmiTv.Value, "*gnmi.TypedValue_BoolVal") && asType(gnmiTv.Value, "*gnmi.TypedValue_BoolVal") != nil ==> err == nil && v.Type == configapi.ValueType_BOOL && tvBool(v) == asType(gnmiTv.Value, "*gnmi.TypedValue_BoolVal").BoolVal
+//@   ensures {C17} bytes-kept: gnmiTv != nil && isType(gnmiTv.Value, "*gnmi.TypedValue_BytesVal") && asType(gnmiTv.Value, "*gnmi.TypedValue_BytesVal") != nil ==> err == nil && v.Type == configapi.ValueType_BYTES && tvBytes(v) == bytesID(asType(gnmiTv.Value, "*gnmi.TypedValue_BytesVal").BytesVal)
+//@   ensures {C17} decimal-kept: gnmiTv != nil && isType(gnmiTv.Value, "*gnmi.TypedValue_DecimalVal") && asType(gnmiTv.Value, "*gnmi.TypedValue_DecimalVal") != nil && asType(gnmiTv.Value, "*gnmi.TypedValue_DecimalVal").DecimalVal != nil && asType(gnmiTv.Value, "*gnmi.TypedValue_DecimalVal").DecimalVal.Precision <= 255 ==> err == nil && v.Type == configapi.ValueType_DECIMAL && tvDigits(v) == asType(gnmiTv.Value, "*gnmi.TypedValue_DecimalVal").DecimalVal.Digits && tvPrecision(v) == asType(gnmiTv.Value, "*gnmi.TypedValue_DecimalVal").DecimalVal.Precision
+//@   fresh v
+
+//@ func handleLeafList(gnmiLl, typeOpt0) (v, err)
+//@   props C17
+//@   modifies nothing
 //@   ensures err == nil ==> v != nil
 //@   fresh v
+
+//@ func NativeTypeToGnmiTypedValue(typedValue) (g, err)
+//@   props C17
+//@   requires typedValue != nil
+//@   modifies nothing
+//@   ensures {C17} string-back: typedValue.Type == configapi.ValueType_STRING ==> err == nil && g != nil && isType(g.Value, "*gnmi.TypedValue_StringVal") && asType(g.Value, "*gnmi.TypedValue_StringVal").StringVal == tvString(typedValue)
+//@   ensures {C17} int-back: typedValue.Type == configapi.ValueType_INT ==> err == nil && g != nil && isType(g.Value, "*gnmi.TypedValue_IntVal") && asType(g.Value, "*gnmi.TypedValue_IntVal").IntVal == tvInt(typedValue)
+//@   ensures {C17} uint-back: typedValue.Type == configapi.ValueType_UINT ==> err == nil && g != nil && isType(g.Value, "*gnmi.TypedValue_UintVal") && asType(g.Value, "*gnmi.TypedValue_UintVal").UintVal == tvUint(typedValue)
+//@   ensures {C17} bool-back: typedValue.Type == configapi.ValueType_BOOL ==> err == nil && g != nil && isType(g.Value, "*gnmi.TypedValue_BoolVal") && asType(g.Value, "*gnmi.TypedValue_BoolVal").BoolVal == tvBool(typedValue)
+//@   ensures {C17} bytes-back: typedValue.Type == configapi.ValueType_BYTES ==> err == nil && g != nil && isType(g.Value, "*gnmi.TypedValue_BytesVal") && bytesID(asType(g.Value, "*gnmi.TypedValue_BytesVal").BytesVal) == tvBytes(typedValue)
+//@   ensures {C17} decimal-back: typedValue.Type == configapi.ValueType_DECIMAL ==> err == nil && g != nil && isType(g.Value, "*gnmi.TypedValue_DecimalVal") && asType(g.Value, "*gnmi.TypedValue_DecimalVal").DecimalVal != nil && asType(g.Value, "*gnmi.TypedValue_DecimalVal").DecimalVal.Digits == tvDigits(typedValue) && asType(g.Value, "*gnmi.TypedValue_DecimalVal").DecimalVal.Precision == tvPrecision(typedValue)
